@@ -9,6 +9,9 @@
 #include "donna/poly1305_donna.h"
 #if defined(HAVE_TI_MODE) && defined(HAVE_EMMINTRIN_H)
 # include "sse2/poly1305_sse2.h"
+#ifdef SODIUM_VERIF
+# include "private/verif.h"
+#endif
 #endif
 
 static const crypto_onetimeauth_poly1305_implementation *implementation =
@@ -81,9 +84,15 @@ int
 _crypto_onetimeauth_poly1305_pick_best_implementation(void)
 {
     implementation = &crypto_onetimeauth_poly1305_donna_implementation;
+#ifdef SODIUM_VERIF
+    SODIUM_VERIF_EVENT("pick", "poly1305", "donna");
+#endif
 #if defined(HAVE_TI_MODE) && defined(HAVE_EMMINTRIN_H)
     if (sodium_runtime_has_sse2()) {
         implementation = &crypto_onetimeauth_poly1305_sse2_implementation;
+#ifdef SODIUM_VERIF
+        SODIUM_VERIF_EVENT("pick", "poly1305", "sse2");
+#endif
     }
 #endif
     return 0;
